@@ -8,7 +8,8 @@ from ..impl_dtcwt import IMPL
 PROP = 'C03'
 MODULE = 'WaveletsVerif.Properties.C03'
 THEOREMS = ['WV.C03.colfilter1_eq_ref', 'WV.C03.coldfilt1_eq_ref', 'WV.C03.interleave2_get', 'WV.C03.coldfilt1_raises_iff',
-            'WV.C03T.reflect_eq_symIdx', 'WV.C03T.symm_pad_1d_eq', 'WV.C03T.symmPad_eq_gather']
+            'WV.C03T.reflect_eq_symIdx', 'WV.C03T.symm_pad_1d_eq', 'WV.C03T.symmPad_eq_gather',
+            'WV.C03P.alongH_alongW_comm', 'WV.C03P.GL_colfilter', 'WV.C03P.GL_coldfilt', 'WV.C03P.fwdJ1_eq_ref', 'WV.C03P.fwdJ2_eq_ref', 'WV.C03P.dtcwt_forward_eq_ref']
 OPS = ['colfilter', 'rowfilter', 'coldfilt', 'rowdfilt', 'q2c', 'fwd_j1', 'fwd_j2plus', 'DTCWTForward']
 
 
@@ -71,9 +72,29 @@ def spec_check(ck):
                     break
             x = gen.int_tensor(rng, (r,))
             lines.append(proto.to_line('Q', 'spec_coldfilt', [hp], [ha, hb, x])); exp.append([Rf.coldfilt(x.reshape(r, 1), ha, hb)[:, 0]])
+    # the whole reference pyramid Spec.refForward (what WV.C03P.dtcwt_forward_eq_ref refines to) <-> dtcwt.Transform2d.forward
+    n1 = len(lines)
+    for it in range(24 if ck.tier == 'quick' else 240):
+        if it % 3 == 0:
+            b = rng.choice(OD.BIORTS); s_ = rng.choice(OD.QSHIFTS)
+            bt, qt = OD.lib_tables(b, s_); kind = 'F'
+            x = gen.float_tensor(ck.nprng, (rng.randint(2, 26), rng.randint(2, 26)))
+        else:
+            bt = OD.int_biort(rng, gen); qt = OD.int_qshift(rng, gen); kind = 'Q'
+            x = gen.int_tensor(rng, (rng.randint(2, 22), rng.randint(2, 22)), amp=3)
+        J = rng.randint(1, 4)
+        h0o, g0o, h1o, g1o = [np.ravel(v) for v in bt]
+        h0a, h0b, g0a, g0b, h1a, h1b, g1a, g1b = [np.ravel(v) for v in qt]
+        low, highs = OD.forward(x, bt, qt, J)
+        lines.append(proto.to_line(kind, 'spec_forward', [J], [h0o, h1o, h0a, h0b, h1a, h1b, x]))
+        exp.append([low] + [OD.to_canon(h) for h in highs])
     outs = proto.run_driver(lines)
-    bad = [ln[:200] for ln, o, e in zip(lines, outs, exp) if o == 'raise' or not proto.equal_exact('Q', e[0], o[0])[0]]
-    ck.extra['spec_vs_reference'] = {'evaluations': len(lines), 'mismatches': len(bad)}
+    bad = []
+    for ln, o, e in zip(lines, outs, exp):
+        kind = ln[0]
+        if o == 'raise' or len(o) != len(e) or not all(proto.equal_exact(kind, ee, oo)[0] for ee, oo in zip(e, o)):
+            bad.append(ln[:200])
+    ck.extra['spec_vs_reference'] = {'evaluations': len(lines), 'pyramids': len(lines) - n1, 'mismatches': len(bad)}
     if bad:
         raise RuntimeError('Lean reference formulas disagree with the numpy dtcwt package (machinery error, not a verdict): ' + bad[0])
 
